@@ -635,7 +635,10 @@ func c19XWorld(t *testing.T, tr *Trace, rng *Rng) {
 		s.amount = sdk.NewIntFromUint64(rng.U64() >> uint(rng.Range(24, 54))).AddRaw(1)
 		if s.denom == "weth" && rng.Chance(50) {
 			// 18-decimal amounts: the rounding of the per-user share is amplified (D20); ≥ 2^63 makes `Int64()` panic
-			s.amount = sdk.NewIntFromUint64(rng.U64() >> uint(rng.Range(1, 8))).AddRaw(1)
+			s.amount = sdk.NewIntFromUint64(rng.U64() >> uint(rng.Range(0, 8))).AddRaw(1)
+			if !s.amount.IsInt64() {
+				tr.Count("xprog:amount>=2^63")
+			}
 		}
 		switch kind {
 		case "L":
